@@ -668,7 +668,12 @@ class World:
         if inp.kind == "p2tr_script":
             order = sorted(range(len(inp.keys)), key=lambda j: secp.xonly(pub(inp.keys[j])))
         r = plan_rng(st.get("pick", 0), "signers")
-        pick = sorted(r.sample(range(len(order)), inp.m))
+        count = inp.m
+        if st.get("extra_signer") and inp.kind == "p2tr_script" and inp.annex is None and len(order) > inp.m:
+            # more cosigners than required hand in a signature (all of them valid): the library's finaliser gets them all
+            count = inp.m + 1
+            self.tr.fault("more_signers_than_required")
+        pick = sorted(r.sample(range(len(order)), count))
         return [inp.keys[order[j]] for j in pick]
 
     def ref_check_signatures(self, idx, inp, ht, d):
@@ -1378,7 +1383,7 @@ def generate(ch, tier, prop):
             r = ch.random()
             if r < 0.25 and budget:
                 budget -= 1
-                steps.append({"op": "sign", "i": ch.randrange(4), "ht": ch.choice([0, 0, 1, 2, 3, 0x81, 0x82, 0x83]), "pick": ch.randrange(1000), "via_sign_input": ch.chance(0.3), "partial_first": ch.chance(0.3)})
+                steps.append({"op": "sign", "i": ch.randrange(4), "ht": ch.choice([0, 0, 1, 2, 3, 0x81, 0x82, 0x83]), "pick": ch.randrange(1000), "via_sign_input": ch.chance(0.3), "partial_first": ch.chance(0.3), "extra_signer": ch.chance(0.25)})
                 if ch.chance(0.5) and vbudget:
                     vbudget -= 1
                     steps.append({"op": "verify", "i": steps[-1]["i"], "reps": ch.choice([1, 2]), "cross": ch.chance(0.3)})
@@ -1497,7 +1502,7 @@ def enumerate_plans(tier, prop, seed):
                 if tk != "none":
                     t["mut"] = {"kind": "flip" if tk == "flip_ss" else tk, "a": (r.randrange(10000) if tk != "sigfree_opcodes" else rep * 3 + 1 + (rep % 2)), "b": (r.randrange(256) if tk != "sigfree_opcodes" else rep), "region": "ss" if tk == "flip_ss" else "w"}
                 yield {"version": 2, "locktime": 0, "inputs": [spec], "outputs": [{"amount": 90000, "spk": tm.spk_p2wpkh(bytes(20)).hex()}, {"amount": 5000, "spk": tm.spk_p2pkh(bytes(20)).hex()}],
-                       "steps": [{"op": "sign", "i": 0, "ht": r.choice([0, 1, 3, 0x81]), "pick": r.randrange(1000), "partial_first": kind == "p2tr_script" and rep % 2 == 0}, t], "enum": "catalogue"}
+                       "steps": [{"op": "sign", "i": 0, "ht": r.choice([0, 1, 3, 0x81]), "pick": r.randrange(1000), "partial_first": kind == "p2tr_script" and rep % 2 == 0, "extra_signer": kind == "p2tr_script" and tk == "none"}, t], "enum": "catalogue"}
     # witness-program splices: every variant x every kind it applies to, several key sets (the effect depends on key bytes)
     for kind in KINDS:
         for v in range(6):
